@@ -588,6 +588,22 @@ def r_buffer_progress(ctx):
     return rep
 
 
+
+
+def bo_variants(prog):
+    """how the stream offset of the buffer start is represented: Option<usize> (analysed once per variant) or a plain usize"""
+    from rules import iterator as it
+    info = prog.adts.get(it.ITER)
+    f = next((f for f in info["variants"][0]["fields"] if f["name"] == "buffer_offset"), None) if info else None
+    if f is None:
+        raise AnchorLost("field buffer_offset not found")
+    ts = (f["ty"] or {}).get("s", "")
+    if ts.startswith("std::option::Option"):
+        return ("None", "Some")
+    if f["ty"].get("k") == "uint":
+        return ("plain",)
+    raise AnchorLost("buffer_offset is neither Option<usize> nor usize")
+
 # ----------------------------------------------------------------------------------------------------
 # R-OFFSET-BOOK: abstract interpretation of the buffer bookkeeping
 # ----------------------------------------------------------------------------------------------------
@@ -611,6 +627,8 @@ def _book_run(prog, entry_variant):
         return LinForm.var((selfcell["c"], (ix[f],)))
 
     def BO(st):
+        if entry_variant == "plain":
+            return LinForm.var((selfcell["c"], (ix["buffer_offset"],)))
         return LinForm.var((selfcell["c"], (ix["buffer_offset"], ("v", 1), 0)))
 
     def setup(eng_, st, frame):
@@ -621,7 +639,7 @@ def _book_run(prog, entry_variant):
         bo = get_at(v, (ix["buffer_offset"],))
         if entry_variant == "None":
             v = set_at(v, (ix["buffer_offset"],), Enum(bo.path, {0: ()}))
-        else:
+        elif entry_variant == "Some":
             v = set_at(v, (ix["buffer_offset"],), Enum(bo.path, {1: bo.variants[1]}))
         st.cells[r.cell] = v
         big = Int(0, 4 * it.OFF, 64, False)
@@ -716,10 +734,10 @@ def _book_run(prog, entry_variant):
     for e in exits:
         v = e.cells[selfcell["c"]]
         bo = get_at(v, (ix["buffer_offset"],))
-        for idx in sorted(bo.variants):
+        for idx in (sorted(bo.variants) if entry_variant != "plain" else [1]):
             st = e.copy()
             try:
-                if len(bo.variants) > 1:
+                if entry_variant != "plain" and len(bo.variants) > 1:
                     st.cells[selfcell["c"]] = set_at(v, (ix["buffer_offset"],), Enum(bo.path, {idx: bo.variants[idx]}))
                     st.apply_guard((selfcell["c"], (ix["buffer_offset"],)), ("v", idx))
             except Infeasible:
@@ -732,7 +750,7 @@ def _book_run(prog, entry_variant):
                                ("buffer_offset grows by exactly the distance the data was moved", cur_bo - LinForm.var(G_BO0) - LinForm.var(G_SHIFT)),
                                ("buffer_offset + filled = stream offset of the last byte received", cur_bo + filled - LinForm.var(G_RECV))):
                 ok = st.entails_eq(form)
-                out["checks"].append({"what": what, "where": "exit of ensure_data_read %s, buffer_offset=%s" % (shape, "Some" if idx else "None"), "ok": ok,
+                out["checks"].append({"what": what, "where": "exit of ensure_data_read %s, buffer_offset=%s" % (shape, "plain" if entry_variant == "plain" else ("Some" if idx else "None")), "ok": ok,
                                       "why": None if ok else "not entailed at this exit"})
     out["exits"] = n_exit
     out["steps"] = eng.steps
@@ -825,7 +843,7 @@ def r_offset_book(ctx):
         raise AnchorLost("R-OFFSET-BOOK: no function replacing the buffer found (ensure_capacity expected)")
     # position is otherwise only advanced (cursor moves forward over bytes it owns): covered by INV (R-PANIC-ITER) and RECOVER-MONO
     seen = {}
-    for variant in ("None", "Some"):
+    for variant in bo_variants(prog):
         res = _book_run(prog, variant)
         rep.analysed.append("ensure_data_read[buffer_offset=%s] (%d steps, %d exits)" % (variant, res["steps"], res["exits"]))
         for a in res["assumptions"]:
@@ -885,7 +903,8 @@ def _tile_run(prog, entry_variant, entry="read_tag"):
         cell = sc["c"]
         outs = []
         bo = get_at(st.cells[cell], (ix["buffer_offset"],))
-        variants = [1] if set(bo.variants) == {1} else [0, 1]
+        plain = not isinstance(bo, Enum)
+        variants = [1] if (plain or set(bo.variants) == {1}) else [0, 1]
         for k, idx in enumerate(variants):
             s2 = st if k == len(variants) - 1 else st.copy()
             try:
@@ -897,7 +916,9 @@ def _tile_run(prog, entry_variant, entry="read_tag"):
                 if isinstance(bufv, Arr):
                     s2.cells[cell] = set_at(s2.cells[cell], (ix["buffer"],), Arr(Int(0, ISIZE_MAX, 64, False), Int.top(8, False), None, bufv.container))
                 s2.kill_loc(cell, (ix["buffer_offset"],))
-                if idx == 1:
+                if plain:
+                    s2.cells[cell] = set_at(s2.cells[cell], (ix["buffer_offset"],), Int(0, it.OFF, 64, False))
+                elif idx == 1:
                     s2.cells[cell] = set_at(s2.cells[cell], (ix["buffer_offset"],), Enum(bo.path, {1: (Int(0, it.OFF, 64, False),)}))
                 else:
                     s2.cells[cell] = set_at(s2.cells[cell], (ix["buffer_offset"],), Enum(bo.path, {0: ()}))
@@ -977,6 +998,8 @@ def _tile_run(prog, entry_variant, entry="read_tag"):
 
     def cur(st):
         bo = get_at(st.cells[sc["c"]], (ix["buffer_offset"],))
+        if not isinstance(bo, Enum):
+            return LinForm.var((sc["c"], (ix["buffer_offset"],))) + V("internal_buffer_position")
         if set(bo.variants) == {1}:
             return LinForm.var((sc["c"], (ix["buffer_offset"], ("v", 1), 0))) + V("internal_buffer_position")
         if set(bo.variants) == {0}:
@@ -999,7 +1022,8 @@ def _tile_run(prog, entry_variant, entry="read_tag"):
         it.constrain_self(eng_, st, r.cell, ix)
         v = st.cells[r.cell]
         bo = get_at(v, (ix["buffer_offset"],))
-        v = set_at(v, (ix["buffer_offset"],), Enum(bo.path, {0: ()} if entry_variant == "None" else {1: bo.variants[1]}))
+        if entry_variant != "plain":
+            v = set_at(v, (ix["buffer_offset"],), Enum(bo.path, {0: ()} if entry_variant == "None" else {1: bo.variants[1]}))
         st.cells[r.cell] = v
         for n in G:
             st.cells[G[n][0]] = Int(0, 4 * it.OFF, 64, False)
@@ -1208,7 +1232,8 @@ def r_tile(ctx):
                      "tag_start / data_start are the cursor before / after the header")
     prog = ctx.prog
     seen = {}
-    for variant, entry in (("None", "read_tag"), ("Some", "read_tag"), ("Some", "peek_tag_id")):
+    bv = bo_variants(prog)
+    for variant, entry in [(v, "read_tag") for v in bv] + [(bv[-1], "peek_tag_id")]:
         res = _tile_run(prog, variant, entry)
         rep.analysed.append("%s[buffer_offset=%s] (%d steps, %d exits)" % (entry, variant, res["steps"], res["exits"]))
         for a in res["assumptions"]:
@@ -1249,7 +1274,7 @@ def r_recover_stretch(ctx):
     rep.instance("functions reachable from the look-ahead that write the position: %s" % (sorted(set(bad)) or "only ensure_data_read"))
     rep.oblige(not bad, "STRETCH|lookahead-pure", pvh.span, "the header look-ahead moves the cursor (position written by %s): the distance computed by try_recover is not the bytes skipped" % sorted(set(bad)))
     seen = {}
-    for variant in ("None", "Some"):
+    for variant in bo_variants(prog):
         res = _tile_run(prog, variant, "try_recover")
         rep.analysed.append("try_recover[buffer_offset=%s] (%d steps)" % (variant, res["steps"]))
         for a in res["assumptions"]:
